@@ -32,6 +32,10 @@
 // a gate), the harness waits until the reader goroutine has left and drains the
 // stream: a prefix, and a clean end only after a complete OK trailer with every
 // message delivered.
+// WHICH RETURN CARRIES THE CALL'S OUTCOME (verdict.go): a call with a single
+// response tells its application the outcome with the return of the one RecvMsg
+// that hands over the response (nil = success); that return is judged like the
+// io.EOF of a response stream, in every case of the decoder client/single.
 //
 // All library code runs in worker processes of this binary (--child) under a
 // hard address-space cap, so a 2 GiB allocation on the strength of a prefix is
@@ -424,7 +428,7 @@ func main() {
 		fmt.Fprintln(os.Stderr, "INCONCLUSIVE: recording the genuine bodies failed:", err)
 		os.Exit(2)
 	}
-	for _, selfTest := range []func() error{harnessSelfTest, gateSelfTest, destSelfTest, oracleSelfTest} {
+	for _, selfTest := range []func() error{harnessSelfTest, gateSelfTest, destSelfTest, oracleSelfTest, verdictSelfTest} {
 		if err := selfTest(); err != nil {
 			fmt.Fprintln(os.Stderr, "INCONCLUSIVE:", err)
 			os.Exit(2)
@@ -533,8 +537,8 @@ func main() {
 		nG = 16
 	}
 	type part struct {
-		keys  map[string][]uint64
-		byDim map[string]int
+		keys    map[string][]uint64
+		verdict map[string][]uint64 // single-response calls that must be refused their success although a response is there, by reference stop
 	}
 	parts := make([]part, nG)
 	var cw sync.WaitGroup
@@ -543,12 +547,13 @@ func main() {
 		go func(g int) {
 			defer cw.Done()
 			sq := sp
-			pt := part{keys: map[string][]uint64{}, byDim: map[string]int{}}
+			pt := part{keys: map[string][]uint64{}, verdict: map[string][]uint64{}}
 			lo, hi := total*g/nG, total*(g+1)/nG
 			for i := lo; i < hi; i++ {
 				c := sq.at(i)
 				nt, cls := nontrivial(c)
-				if !nt {
+				vr, vcls := verdictWithResponse(c)
+				if !nt && !vr {
 					continue
 				}
 				cl := "-"
@@ -560,7 +565,12 @@ func main() {
 					cx = fmt.Sprint(*c.Ctx)
 				}
 				k := fnv64([]byte(c.Side + "|" + c.Mode + "|" + c.ending() + "|" + c.Delivery + fmt.Sprint(c.Splits) + "|" + cl + "|" + c.Dest + "|" + cx + "|" + string(c.Body())))
-				pt.keys[c.Side+"/"+cls] = append(pt.keys[c.Side+"/"+cls], k)
+				if nt {
+					pt.keys[c.Side+"/"+cls] = append(pt.keys[c.Side+"/"+cls], k)
+				}
+				if vr {
+					pt.verdict[vcls] = append(pt.verdict[vcls], k)
+				}
 			}
 			parts[g] = pt
 		}(g)
@@ -574,7 +584,7 @@ func main() {
 			merged[cls] = append(merged[cls], ks...)
 		}
 	}
-	for cls, ks := range merged {
+	distinct := func(ks []uint64) int {
 		sort.Slice(ks, func(i, j int) bool { return ks[i] < ks[j] })
 		n := 0
 		for i := range ks {
@@ -582,8 +592,24 @@ func main() {
 				n++
 			}
 		}
+		return n
+	}
+	for cls, ks := range merged {
+		n := distinct(ks)
 		byClass[cls] = n
 		nDistinct += n
+	}
+	verdictMerged := map[string][]uint64{}
+	for _, pt := range parts {
+		for cls, ks := range pt.verdict {
+			verdictMerged[cls] = append(verdictMerged[cls], ks...)
+		}
+	}
+	verdictByStop, nVerdict := map[string]int{}, 0
+	for cls, ks := range verdictMerged {
+		n := distinct(ks)
+		verdictByStop[cls] = n
+		nVerdict += n
 	}
 	var samples []interface{}
 	for _, s := range samp {
@@ -628,9 +654,13 @@ func main() {
 			"Dimension DECLARED LENGTH (ContentLength field and Content-Length header of the reply on the client side, of the request on the server side), swept around the base cases over {0, length of the body, length of the uncut body, 1 GiB, 1 TiB} (-1 is the base): A1-len = " + lenRule + " x 4 decoders, clean ending, one piece; A2-len = every cut of every recorded body x clean/abrupt x the base deliveries; A2-large-len = every large body and cut x clean/abrupt, one piece. " +
 			"Dimension DESTINATION MESSAGE OBJECT (what RecvMsg / the unary decode function / Invoke is given to decode into), swept around the base cases over {a fresh message that already holds a value, one zero message reused for every receive of the stream, one reused message that holds a value before the first receive} (a fresh zero message per receive is the base; unary bodies are one receive: fresh-prepopulated only): A1-dest = " + lenRule + " x 4 decoders, clean ending, one piece (the frame alphabet has the zero-size data frame, so every sequence of <=" + map[bool]string{false: "2", true: "3"}[rep.Tier == "thorough"] + " frames in which an all-default message follows a non-empty one is there); A2-dest = every cut of every recorded body x clean/abrupt x the base deliveries; A2-large-dest = every large body and cut x clean/abrupt, one piece. The recordings of A2 now cover every pattern of empty (all-default, zero-size frame) and non-empty messages of length <=3 as request stream and as response stream (x ok / error outcome), and the empty message as single request, single response, unary request and unary reply. What a receive yields is recorded before the next receive. " +
 			fmt.Sprintf("Dimension THE CONTEXT ENDS AT A FRAME-GRANULAR INSTANT (client decoders): A2-ctx = every complete recorded response (n data frames + trailer; %d (response, instant) pairs) x every K in 0..n+1 (the body releases K frames, n+1 = all of it; a Read beyond them blocks) x every J in 0..min(K,n) (RecvMsg calls the consumer has completed; J<K: the reader goroutine holds a frame nobody takes) with the consumer between two RecvMsg calls, and J=K with the consumer inside its next RecvMsg (single-response calls: J=0 before the stream has ended, 'inside' = inside the first RecvMsg) x {the context is cancelled, a real deadline passes} x the base deliveries. The context ends when the body has reported that the reader goroutine has read frame J+1 / has arrived at the gate and the consumer is where the case wants it (channels; a deadline attempt counts only if the deadline had not passed when that state was reached, otherwise it is repeated with a later deadline); from then on every Read of the body fails with the context's error; the harness waits until the reader goroutine has closed the body and then drains the stream with RecvMsg. Oracle: the one below applied to the frames that were released; which error is reported is not looked at. ", len(sp.ctxBases)) +
+			"Dimension WHICH RETURN CARRIES THE CALL'S OUTCOME (verdict.go): the application of a call with a single response (generated CloseAndRecv of a client-streaming method, a unary method invoked through NewStream) makes ONE RecvMsg and takes its return as the outcome of the call, nil = success with that response; the receive loop of the harness makes that call as its first one, so every case of the decoder client/single in every block above is a case of that application too, and every return of the recorded sequence that reports success is judged (nil from a RecvMsg of a single-response call: only after exactly one data frame and a complete OK trailer; io.EOF as before), not only the error the sequence ends with. single_response_refusals counts the distinct cases in which the reference decoder has an intact response to hand over and the success must be refused all the same (cut or invalid bytes after the response frame, a failure trailer, a second data frame, the context ends before the trailer is released). The A2 recordings include, for single-response calls, a handler that sends its response (non-empty / all-default) and then fails. " +
 			"Oracle for all of it: the reference decoder of the body bytes alone (delivered messages are an intact prefix of the complete data frames, success only after a complete OK trailer / clean end of a whole request, allocation bound, no panic), so the outcome may not depend on the fragmentation or the declared length; and a complete genuine body with a clean ending and a consistent declared length must decode to exactly what the genuine run delivered, under every fragmentation. thorough adds abrupt endings for A1, long messages and a second error outcome. " +
 			"A case is non-trivial when the reference decoder stops anywhere but at a complete trailer frame (client) / a clean end of a whole request (server), i.e. the decoder must validate a prefix, classify an EOF or detect a cut, or when a read boundary falls inside a frame (size preface or payload) so that the decoder must reassemble it; a case of the destination dimension is non-trivial when the reference decoder delivers a message into a destination that is not zero (>=1 message for the pre-populated kinds, >=2 for the reused zero message; classes dest:*); a case of the context dimension when the context ends before the stream is over (everything but K=n+1,J=n; classes ctx:*); distinct by (side, mode, ending, delivery and read boundaries, declared length, destination kind, context instant, body bytes).",
 		"destinations":                         "fresh zero message per receive (base) | fresh-prepop | reused | reused-prepop",
+		"outcome_carrying_returns":             "client response stream: io.EOF from RecvMsg | client single response: nil from the RecvMsg that hands over the response, io.EOF from RecvMsg | server: io.EOF from RecvMsg | unary: the return of Invoke / of the decode function",
+		"single_response_refusals":             nVerdict,
+		"single_response_refusals_by_stop":     verdictByStop,
 		"context_end_instants":                 len(sp.ctxBases),
 		"blocks":                               sp.blockSizes(),
 		"prefixes":                             prefixes,
@@ -657,6 +687,7 @@ func main() {
 		"destination objects: the messages are wrapperspb.StringValue (one scalar field), so 'the destination is not reset' shows only when an all-default message is decoded into a destination that holds a value; that is why empty messages after non-empty ones are in both alphabets",
 		"context end: the body is synthetic (Read blocks at a gate and fails with the context's error once the context has ended, like the body of net/http); the context is ended from outside at an instant fixed by the body's channels, a deadline is a real timer that is only waited for, never measured; only client streams (the server decodes synchronously inside RecvMsg: a context that ends there is a failed body Read, which the abrupt endings cover); the instants are frame-granular (K whole frames released), the byte-granular cuts are the A2 truncations",
 		"a declared length that disagrees with the body is an inconsistent input net/http itself would not produce; for it only the safety clauses are demanded (no panic, allocation bound, no fabricated or altered message, no success without a complete OK trailer), not that all messages of the body are delivered",
+		"outcome-carrying returns: the single-response application (one RecvMsg, nil = success) is not run as a consumer of its own: its only call is the first call of the receive loop, made in the same state, so the loop's record contains what it is told; on the server side the nil return of the RecvMsg of a single-request method is not treated as 'the request is complete' (grpc-go's server does not look beyond the one request either); the receive loop stops at the first error: what a RecvMsg would return after the call has been reported as failed is not explored",
 		"server side: an abrupt end of the request exactly at a frame boundary and a negative size prefix are not required to be errors, only not to yield messages",
 	}))
 }
